@@ -427,6 +427,49 @@ func checkC07(c *mc.Ctx) {
 		c.Ev.Class("pmts-around-the-pat", n)
 		c.Ev.AddScenario(mc.Scenario{Name: "pmts-around-the-pat-merges", SpaceSize: n, Executed: n, Exhaustive: true, Bound: "all merges of the PAT with two PMT units on each of two PMT PIDs (the PAT anywhere)"})
 	}
+	// adaptation fields of the same length and shape (stuffing only) on two PIDs, differing in their indicator bits
+	// alone: what one PID's packets flag says nothing about the other PID's packets
+	{
+		var n int64
+		for _, flags := range []struct{ disc, rai, prio bool }{{false, true, true}, {true, false, false}, {true, true, true}} {
+			ccs := []uint8{6, 10}
+			mk := func(pid uint16, tag int, cc *uint8, flagged bool) []*ref.Pkt {
+				ps := Packetize(PESUnit(pid, 0xc0, pesPayload(tag, 60, c.Seed), uint64(tag), true), nil, cc, false)
+				if flagged {
+					ps[0].AF.Disc, ps[0].AF.RAI, ps[0].AF.ESPrio = flags.disc, flags.rai, flags.prio
+				}
+				return ps
+			}
+			lists := [][]*ref.Pkt{
+				append(mk(0x100, 71, &ccs[0], true), mk(0x100, 72, &ccs[0], true)...),
+				append(append(mk(0x101, 73, &ccs[1], false), Packetize(PESUnit(0x101, 0xc0, pesPayload(74, 184+60-14, c.Seed), 74, true), nil, &ccs[1], false)...), mk(0x101, 75, &ccs[1], false)...),
+			}
+			solo := map[uint16][]string{}
+			for k, pid := range []uint16{0x100, 0x101} {
+				solo[pid] = canonData(DemuxBytes(EncodePkts(lists[k])).Data)[pid]
+				if pid == 0x101 && len(solo[pid]) != 3 {
+					panic("same-length-adaptation-fields: baseline of the unflagged PID")
+				}
+			}
+			mc.Merges([]int{len(lists[0]), len(lists[1])}, func(o []int) bool {
+				st := BuildStream("same-length-adaptation-fields", lists, append([]int{}, o...), nil)
+				out := DemuxBytes(st.Bytes)
+				got := canonData(out.Data)
+				for _, pid := range []uint16{0x100, 0x101} {
+					if !equalStrs(got[pid], solo[pid]) || out.Panic != nil || len(out.Errs) > 0 {
+						c.Rep.Report("pid-affected-by-adaptation-field-of-another-pid", map[string]any{"kind": "stream", "what": fmt.Sprintf("order %v flags %+v", o, flags), "bytes": mc.Hex(st.Bytes),
+							"message": fmt.Sprintf("PID %#x: %d data in this merge, %d alone (or contents differ, the FirstPacket's adaptation field included); the other PID's packets carry adaptation fields of the same length with other indicator bits", pid, len(got[pid]), len(solo[pid]))})
+						break
+					}
+				}
+				n++
+				return true
+			})
+		}
+		c.Ev.DistinctAdd(n)
+		c.Ev.Class("same-length-adaptation-fields", n)
+		c.Ev.AddScenario(mc.Scenario{Name: "same-length-adaptation-fields-merges", SpaceSize: n, Executed: n, Exhaustive: true, Bound: "two PIDs whose packets carry stuffing-only adaptation fields of equal length, one PID's with discontinuity / random access / priority set (3 flag sets): all merges"})
+	}
 	// byte-identical payload units on several PIDs at once (the same audio on two PIDs, one PMT section carried on
 	// the PMT PIDs of two programmes, the same SDT on the SDT PID and on a PMT PID): what a PID delivers carries
 	// that PID, whatever an identical unit on another PID has just delivered
